@@ -11,10 +11,10 @@ def _configs(tier):
     for n in ns:
         cat = profile_catalogue(tier, n, heavy=True)
         if n == 3:
-            cat = [c for c in cat if c[0][0] != c[0][-1]][:3] + cat[:2]
+            cat = [c for c in cat if c[0][0] != c[0][-1]][2:3] + cat[7:8]      # one layered (PaddyTop over PaddyPan) and one uniform 3-compartment profile
         for layers, dzs in cat:
             for bunds in (False, True):
-                for gs in (True, False):
+                for gs in ((True, False) if n == 2 else (True,)):
                     if tier == "quick" and not gs and layers[0] not in ("PaddyTop",):
                         continue
                     if tier == "quick" and layers[0] in ("Paddy", "Clay"):
